@@ -160,7 +160,7 @@ func c15History(c *mon.Ctx, s c15Subject, seq []int) {
 	// ONE option slice for the whole history, as a caller holding its options in
 	// a variable would pass it (opts...); half the time it also carries a
 	// render option after the diff options, and spare capacity
-	mkOpts := func() []jd.Option { return s.o.O() }
+	mkOpts := func() []jd.Option { return append(make([]jd.Option, 0, 8), s.o.O()...) }
 	if tail := c.R.Intn(4); tail >= 2 {
 		ro := []jd.Option{jd.COLOR, jd.MERGE}[tail-2]
 		if tail == 2 || s.o.Merge {
@@ -177,11 +177,12 @@ func c15History(c *mon.Ctx, s c15Subject, seq []int) {
 		}
 	}
 	shared := mkOpts()
-	dumpOpts := Dump(shared)
+	// the dump covers the spare capacity too: a sibling slice of the caller may live there
+	dumpOpts := Dump(shared[:cap(shared)])
 	dumpA, dumpB, dumpD := Dump(A), Dump(B), Dump(d)
 	for step, k := range seq {
 		out := readOnlyCalls[k].call(A, B, d, shared)
-		if x := Dump(shared); x != dumpOpts {
+		if x := Dump(shared[:cap(shared)]); x != dumpOpts {
 			c.Violation(readOnlyCalls[k].name+" modified the option slice the caller passed (opts...)", map[string]any{"step": step, "options_before": dumpOpts, "options_after": x})
 			return
 		}
